@@ -133,12 +133,14 @@ def run_refine(ctx, progs, consts, module="Refine", cfg=None, opts=None, batch_s
     compiled = precompiled if precompiled is not None else compile_records(ctx, progs, opts, variants)
     if keep_results:
         ctx.results = compiled
-    items, srcs = [], {}
+    items, srcs, one_sided = [], {}, []
     for p in progs:
         rs = compiled[p["id"]]
         bad = [r for r in rs.values() if r.get("status") != "ok"]
         if bad:
             note_impl_reject(ctx, p, bad[0])
+            if len(bad) < len(rs):
+                one_sided.append(p["id"])      # e.g. the program compiles and its twin does not: recorded, and too many = my twins are broken
             continue
         if item_fn:
             it = item_fn(p, rs)
@@ -149,6 +151,10 @@ def run_refine(ctx, progs, consts, module="Refine", cfg=None, opts=None, batch_s
         items.append(it)
         srcs[p["id"]] = p
     ctx.add("evaluations", len(progs))
+    ctx.add("one_sided_rejections", len(one_sided))
+    if len(one_sided) * 10 > len(progs) and len(one_sided) >= 3:
+        raise Machinery("%d of %d records compile in one variant and are refused in the other (first: %s): the twin transformation or an option is broken"
+                        % (len(one_sided), len(progs), one_sided[0]))
     if not items:
         raise Machinery("no program of the corpus slice compiled (%d tried)" % len(progs))
     c = {"Strict": False, "DomCap": 300, "Seed": ctx.seed, "Clauses": list(CLAUSES.get(ctx.pid, ()))}
@@ -253,6 +259,9 @@ def c02(ctx):
 
 def mem_check(ctx, grps, vclause, nquick):
     progs = [p for p in with_ids(gen.generate("GenMem"), "me") if p["grp"] in grps]
+    if vclause == "C03_value":
+        # cells declared inside functions and loop bodies (per call / per iteration instances, name clashes with the caller)
+        progs += [p for p in with_ids(gen.generate("GenFL"), "fl") if p.get("mode") == "hist"]
     ctx.cov["corpus_size"] = len(progs)
     if ctx.tier == "quick":
         sel = pick_strat(progs, nquick, ctx.seed, min_per=5)
